@@ -221,6 +221,7 @@ def one_case(ctx, sc, k, n, mode, follow):
             follow = res['follow'] = 'next-day'     # a second backup on the same day cannot fit a group of one: not a crash matter
         t2 = sc.t + (7 if follow == 'same-day' else hist.DAY)
         s1_backups = final_backups(root)
+        s1_groups = [g for g in os.listdir(root) if store.GROUP_RE.match(g) and os.path.isdir(os.path.join(root, g))]
         r2 = store.run_vsb(ctx, ['-c', cfg, 'backup', 'b'], now=t2)
         res.update({'rc2': r2.rc, 'errors2': r2.errors()[:3], 'partial_group': partial_group})
         s2 = hash_tree(root)
@@ -235,7 +236,13 @@ def one_case(ctx, sc, k, n, mode, follow):
             if left:
                 res['problems'].append('the follow-up run left temporaries in the group it used: %s' % left)
         if r2.rc != 0 and not partial_group:
-            res['problems'].append('the follow-up run (%s) exits %d: %s' % (follow, r2.rc, r2.errors()[:2]))
+            groups1 = sorted(s1_groups)
+            stale = [g for g in groups1[-1:] if g != store.group_name(t2) and not any(x[0] == g for x in s1_backups)]
+            if stale and any('Suspicious first backup' in e for e in r2.errors()) and new2 and new2[0][0] == stale[0]:
+                res['problems'].append('the follow-up run adopted the empty group %s left by the interrupted run on a later day and exits %d: %s'
+                                       % (stale[0], r2.rc, r2.errors()[:1]))
+            else:
+                res['problems'].append('the follow-up run (%s) exits %d: %s' % (follow, r2.rc, r2.errors()[:2]))
         for (g, b) in s1_backups:
             if not os.path.isdir(os.path.join(root, g)):
                 continue            # whole group removed by retention
